@@ -403,12 +403,14 @@ static void slot_fill(Slot &s) {
     b = 0;                 // concretely clean (an assumption would leave size/capacity symbolic during symbolic execution)
 #endif
 #ifdef KF_ONLY_C12_number_ctor_uninit
-    vf_assume(b != 0);
+    b = 0x0000000500000000ULL;   // one concrete instance of "not clean": read back as size 0, capacity 5 (a symbolic one does not decide)
 #endif
     for (unsigned i = 0; i < 8; ++i) {
         s.raw[i] = (unsigned char)(a >> (8 * i)); s.raw[8 + i] = (unsigned char)(b >> (8 * i)); s.raw[16 + i] = (unsigned char)(c >> (8 * i));
     }
 }
+
+static void slot_scrub(Slot &s) { volatile unsigned char *p = s.raw; for (unsigned i = 0; i < 24; ++i) p[i] = 0; }
 
 template <int K, int LEN> static V *mk_leaf(Slot &slot, MN &n) {   // a scalar or a string of LEN <= 5 units
     slot_fill(slot);
@@ -956,11 +958,14 @@ extern "C" void h_step() {
     }
 #endif
 
+#ifndef KF_ONLY_C12_number_ctor_uninit   // (that finding corrupts the value: the operation itself is the counterexample, nothing is observed after it)
     obs_doc(*v, m);
     if (t != nullptr) obs_doc(*t, tm);
     if (src != nullptr) src->~V();
     if (srct != nullptr) srct->~V();
     v->~V();
     if (t != nullptr) t->~V();
+    slot_scrub(sv); slot_scrub(st); slot_scrub(ss); slot_scrub(sst);   // no stale pointer keeps a leaked block "reachable" for LeakSanitizer
+#endif
     vf_witness();
 }
